@@ -240,8 +240,14 @@ def compare_negotiated(ctx, got, want, c, pool):
               info={'got': got['peer_as'], 'want': want['peer_as'], 'rfc': 'RFC 6793 4.1 MUST use the AS number of the capability'})
     la = got['local_as']
     trans = c['local_as'] > 65535 and not isinstance(la, (SInt, SBool)) and int(la) == O.AS_TRANS
-    ctx.check('local-as', sx_eq(la, want['local_as']), sig='C07:nego:local-as-is-as-trans' if trans else 'C07:nego:local-as',
-              info={'got': la, 'want': want['local_as']})
+    if c['local_as'] > 65535 and not c['asn4']:
+        # RFC 6793 4.1: a speaker whose AS number needs four octets MUST advertise the capability.  `asn4 disable` with such
+        # a local AS is not a configuration the RFC gives a meaning to (the speaker can only ever present AS_TRANS): what
+        # Negotiated.local_as holds then is outside the claim; every other field is still judged.
+        ctx.cover('four-octet-local-as-without-the-capability')
+    else:
+        ctx.check('local-as', sx_eq(la, want['local_as']), sig='C07:nego:local-as-is-as-trans' if trans else 'C07:nego:local-as',
+                  info={'got': la, 'want': want['local_as']})
     for f in pool:
         ctx.check('addpath-send', sx_eq(got['addpath_send'][f], want['addpath_send'].get(f, False)), sig='C07:nego:addpath-send',
                   info={'family': f, 'got': got['addpath_send'][f], 'want': want['addpath_send'].get(f, False)})
